@@ -121,7 +121,7 @@ def handlers(emit, repo):
         return {"ok": True, "err": "", "fields": [dg(entry[f]) for f in FIELDS]}
 
     def write_input(path, names, descs, style):
-        with open(path, "w") as f:
+        with open(path, "w", encoding="utf-8") as f:
             if not names:
                 f.write("# no games\n{}\n" if style == 0 else "{\n    # nothing here yet\n}\n")
             elif style == 0:      # the generator's style: str(dict) with line breaks
@@ -140,16 +140,16 @@ def handlers(emit, repo):
                     f.write("    },\n")
                 f.write("}\n")
 
-    def parse_report(path):
+    def parse_report(path, unmap=lambda t: t):
         blocks, cur = [], None
-        with open(path) as f:
+        with open(path, encoding="utf-8", errors="replace") as f:
             for line in f.read().split("\n"):
                 if line == "=" * 160:
                     cur = []
                     blocks.append(cur)
                 elif line and cur is not None:
                     label, _, text = line.partition(": ")
-                    cur.append({"label": label.rstrip(), "text": text})
+                    cur.append({"label": label.rstrip(), "text": unmap(text)})
         return blocks
 
     def listing(root):
@@ -176,6 +176,22 @@ def handlers(emit, repo):
         for d, fl in zip(descs, job.get("flags", [])):
             if fl in ("true", "false"):
                 d["prune_states"] = (fl == "true")
+        # non-ASCII names: legal Python text in a UTF-8 file.  Game names get a suffix that is
+        # stripped again from everything observed (what comes back garbled keeps its garbling and
+        # no longer matches); action names stay as they are (they only occur in observations)
+        UNI = "_\u00f1\u03b1" if job.get("uni") else ""
+
+        def unmap(text):
+            return text.replace(UNI, "") if UNI else text
+        if UNI:
+            names = [n + UNI for n in names]
+            for d in descs:
+                tl = d.get("transition_list")
+                if isinstance(tl, list):
+                    for row in tl:
+                        if isinstance(row, list):
+                            row[:] = [(e[0] + "\u03b2", e[1]) if isinstance(e, tuple) and len(e) == 2
+                                      and isinstance(e[0], str) else e for e in row]
         solos = []
         runner = os.path.join(os.path.dirname(os.path.abspath(__file__)), "solo_runner.py")
         for d in descs:
@@ -198,7 +214,7 @@ def handlers(emit, repo):
             # the reader
             try:
                 read = cr.read_dict_from_file(rel)
-                rb = {"error": "", "keys": [str(k) for k in read.keys()],
+                rb = {"error": "", "keys": [unmap(str(k)) for k in read.keys()],
                       "digests": [dg(read[k]) for k in read.keys()]}
             except Exception as exc:
                 read = None
@@ -211,8 +227,8 @@ def handlers(emit, repo):
                 entries = []
                 for key, e in results.items():
                     text = {k: str(v) for k, v in e.items()}
-                    text["name"] = str(key)
-                    entries.append({"key": str(key), "msg": str(e.get("msg")),
+                    text["name"] = unmap(str(key))
+                    entries.append({"key": unmap(str(key)), "msg": str(e.get("msg")),
                                     "none": e.get("final_strategies") is None,
                                     "fields": [dg(e.get(f)) for f in FIELDS], "text": text})
                 out = {"crashed": False, "etype": "", "entries": entries}
@@ -222,7 +238,7 @@ def handlers(emit, repo):
             # the reader again, after the batch run (run_games adds a key to the dicts it was given)
             try:
                 read2 = cr.read_dict_from_file(rel)
-                rb["keys2"] = [str(k) for k in read2.keys()]
+                rb["keys2"] = [unmap(str(k)) for k in read2.keys()]
                 rb["digests2"] = [dg(read2[k]) for k in read2.keys()]
             except Exception as exc:
                 rb["keys2"] = ["<" + type(exc).__name__ + ">"]
@@ -237,7 +253,7 @@ def handlers(emit, repo):
                     new = sorted(set(listing(scratch)) - before)
                     report["files"] = new
                     api_path = os.path.join(scratch, "outputs", job["file"] + ".txt")
-                    report["blocks"] = parse_report(api_path) if os.path.exists(api_path) else []
+                    report["blocks"] = parse_report(api_path, unmap) if os.path.exists(api_path) else []
                 except Exception as exc:
                     report["error"] = type(exc).__name__
                 # the command line, in a second scratch directory
@@ -253,7 +269,7 @@ def handlers(emit, repo):
                     cli["rc"] = p.returncode
                     cli["files"] = sorted(set(listing(scratch2)) - before2)
                     cpath = os.path.join(scratch2, "outputs", job["file"] + ".txt")
-                    cblocks = parse_report(cpath) if os.path.exists(cpath) else []
+                    cblocks = parse_report(cpath, unmap) if os.path.exists(cpath) else []
                     diff = []
                     if len(cblocks) != len(report["blocks"]):
                         diff.append("block count")
